@@ -26,6 +26,7 @@ THEOREMS = [
     # per-atom image lists, total = natoms*|det U| (the code's expected-count test), at K = Q with Rat.floor
     'C04.rotate_lattice_index', 'C04.rep_in_bounds', 'C04.keptPred_imageOf', 'C04.rotate_count',
     'C04.rotate_total', 'C04.rotate_check_passes', 'C04.rotate_total_rat',
+    'C04.rotate_identity_shortcut', 'C04.rotate_ok',
 ]
 PARTIAL = {
     'normalize_after_rotate': 'the final normalize step (rebuild the box LAMMPS-compatible, flip a left-handed cell, '
@@ -203,13 +204,67 @@ def norm_size(s):
     return (0, s) if s > 0 else (s, 0)
 
 
+def _det3(U):
+    return (U[0][0] * (U[1][1] * U[2][2] - U[1][2] * U[2][1]) - U[0][1] * (U[1][0] * U[2][2] - U[1][2] * U[2][0])
+            + U[0][2] * (U[1][0] * U[2][1] - U[1][1] * U[2][0]))
+
+
+def _matmul3(A, B):
+    return [[sum(A[i][k] * B[k][j] for k in range(3)) for j in range(3)] for i in range(3)]
+
+
 def gen_U(rng, maxdet=6, lim=2):
-    np = _np()
+    """integer 3x3 with 0 < |det| <= maxdet: mostly random entries in [-lim, lim], and a quarter from the special
+    families a random draw almost never hits (signed permutations, diagonal, triangular/Hermite form, unimodular
+    shear products, the integer centering matrices), of either handedness."""
     while True:
-        U = [[rng.randint(-lim, lim) for _ in range(3)] for _ in range(3)]
-        d = round(float(np.linalg.det(np.array(U, dtype=float))))
-        if d != 0 and abs(d) <= maxdet:
+        r = rng.random()
+        if r < 0.75:
+            U = [[rng.randint(-lim, lim) for _ in range(3)] for _ in range(3)]
+        elif r < 0.82:      # signed permutation (|det| = 1, not the identity shortcut)
+            perm = rng.sample(range(3), 3)
+            U = [[(rng.choice([-1, 1]) if j == perm[i] else 0) for j in range(3)] for i in range(3)]
+        elif r < 0.87:      # diagonal
+            U = [[(rng.choice([-2, -1, 1, 2, 3]) if i == j else 0) for j in range(3)] for i in range(3)]
+        elif r < 0.92:      # lower triangular (Hermite normal form like)
+            U = [[(rng.randint(1, 3) if i == j else (rng.randint(-2, 2) if j < i else 0)) for j in range(3)]
+                 for i in range(3)]
+        elif r < 0.97:      # unimodular: product of elementary shears
+            U = [[1, 0, 0], [0, 1, 0], [0, 0, 1]]
+            for _ in range(rng.randint(1, 3)):
+                i, j = rng.sample(range(3), 2)
+                E = [[1 if a == b else 0 for b in range(3)] for a in range(3)]
+                E[i][j] = rng.choice([-2, -1, 1, 2])
+                U = _matmul3(E, U)
+        else:               # integer conventional->primitive centering matrices (miller.py)
+            U = rng.choice([[[1, 0, 0], [0, 1, -1], [0, 1, 1]], [[1, -1, 0], [1, 1, 0], [0, 0, 1]],
+                            [[0, -1, -1], [1, 1, 0], [1, 0, 1]], [[1, -1, 1], [1, 1, -1], [-1, 1, 1]],
+                            [[1, -1, 0], [0, 1, -1], [1, 1, 1]], [[-1, 1, 0], [0, -1, 1], [1, 1, 1]]])
+            U = [list(row) for row in U]
+        d = _det3(U)
+        if d != 0 and abs(d) <= maxdet and max(abs(x) for row in U for x in row) <= 6:
             return U, d
+
+
+# always exercised (correspondence and oracle), on cells whose origin is not a lattice vector: the identity shortcut,
+# proper and improper axis permutations, inversion, a diagonal and a centering matrix
+FIXED_U = [[[1, 0, 0], [0, 1, 0], [0, 0, 1]], [[0, 1, 0], [0, 0, 1], [1, 0, 0]], [[0, 1, 0], [1, 0, 0], [0, 0, 1]],
+           [[-1, 0, 0], [0, -1, 0], [0, 0, -1]], [[2, 0, 0], [0, 1, 0], [0, 0, 1]], [[1, -1, 0], [1, 1, 0], [0, 0, 1]]]
+
+
+def gen_case_U(rng, am, it, maxdet):
+    """(system, family, spos, U, det): the first len(FIXED_U) cases of a batch use the fixed matrices."""
+    if it < len(FIXED_U):
+        while True:
+            sysm, fam, spos = gen_system(rng, am)
+            o = sysm.box.origin @ _np().linalg.inv(sysm.box.vects)
+            if _np().abs(o - _np().round(o)).max() > 1e-3:
+                break
+        U = [list(r) for r in FIXED_U[it]]
+        return sysm, fam, spos, U, _det3(U)
+    sysm, fam, spos = gen_system(rng, am)
+    U, d = gen_U(rng, maxdet=maxdet)
+    return sysm, fam, spos, U, d
 
 
 def frac_mod1(x: Fraction) -> Fraction:
@@ -267,8 +322,7 @@ def correspond(ctx):
             ctx.disagree('supersize:int-rule', f'int multiplier {n}: implementation {impl}, model {out}', {'n': n})
     # --- rotate: multiset of (type, extras, rel pos mod 1) in the new cell ---
     for it in range(ctx.n(60, 800)):
-        sysm, fam, _ = gen_system(rng, am)
-        U, d = gen_U(rng, maxdet=ctx.n(5, 8))
+        sysm, fam, _, U, d = gen_case_U(rng, am, it, ctx.n(5, 8))
         _corr_rotate(ctx, am, sysm, fam, U, d, 'rotate')
     # --- rotate with an atom outside the box: the bounding supercell may miss images, then the code's own
     #     expected-count test refuses ("Filtering failed"); the model (rotateChecked) must refuse exactly then ---
@@ -287,14 +341,29 @@ def _corr_rotate(ctx, am, sysm, fam, U, d, kind):
     out = ctx.driver.ask(line)
     ctx.stats.case(kind, line, nontrivial=U != [[1, 0, 0], [0, 1, 0], [0, 0, 1]],
                    sample={'op': kind, 'family': fam, 'U': U, 'det': d, 'natoms': sysm.natoms})
+    def on_face(rel):
+        return any(min(abs(float(x)), abs(float(x) - 1.0)) < 1e-6 for x in rel)
+
     try:
         new, T = sysm.rotate(U, return_transform=True)
     except ValueError as e:
         if not out.startswith('err:'):
+            mbox, matoms = parse_result(out)
+            if kind == 'rotate-outside':
+                # an image exactly on a face of the new cell (s = 0 or 1 up to rounding) is assigned to one of two
+                # lattice-equivalent positions by the float tolerance ladder and to the other in exact arithmetic; for
+                # an atom outside the box only one of the two may lie in the bounding supercell: not comparable
+                Vi = inv3([[mbox[3 * i + j] for j in range(3)] for i in range(3)])
+                if any(on_face(vecmat(p, Vi)) for _, p, _ in matoms):
+                    ctx.extra['rotate_outside_face_exempt'] = ctx.extra.get('rotate_outside_face_exempt', 0) + 1
+                    return
             ctx.disagree(kind + ':impl-refuses', f'rotate refused U={U} (det {d}) family {fam}: {e}; the model keeps '
-                         f'{parse_result(out)[1].__len__()} atoms', {'op': 'rotate', 'line': line, 'U': U})
+                         f'{len(matoms)} atoms', {'op': 'rotate', 'line': line, 'U': U})
         return
     if out.startswith('err:'):
+        if kind == 'rotate-outside' and any(on_face(srow) for srow in new.atoms_prop('pos', scale=True)):
+            ctx.extra['rotate_outside_face_exempt'] = ctx.extra.get('rotate_outside_face_exempt', 0) + 1
+            return
         ctx.disagree(kind + ':model-refuses', f'model refused U={U}: {out}; rotate returned {new.natoms} atoms',
                      {'line': line})
         return
@@ -478,8 +547,7 @@ def search(ctx, broken):
             pass
     # rotate
     for it in range(ctx.n(50, 600) * scale):
-        sysm, fam, spos = gen_system(rng, am)
-        U, d = gen_U(rng, maxdet=ctx.n(5, 8))
+        sysm, fam, spos, U, d = gen_case_U(rng, am, it, ctx.n(5, 8))
         replay = {'op': 'rotate', 'family': fam, 'vects': sysm.box.vects.tolist(), 'origin': sysm.box.origin.tolist(),
                   'spos': [[float(x) for x in s] for s in spos], 'atype': sysm.atoms.atype.tolist(), 'U': U}
         ctx.stats.case('oracle:rotate', (fam, tuple(map(tuple, U)), tuple(spos)))
@@ -604,17 +672,8 @@ def _check_same_crystal_partial(ctx, key, what, sysm, spos, new, T, replay):
     for k in range(new.natoms):
         y = T.T @ new.atoms.pos[k]
         s = (y - sysm.box.origin) @ Vinv
-        # the primitive cell may have been shifted so that an atom sits at the origin: allow a common offset
-        if k == 0:
-            off = None
-            for (t, opl, sp) in recs:
-                if t == int(new.atoms.atype[k]):
-                    off = [float(sp[j]) - s[j] for j in range(3)]
-                    break
-            if off is None:
-                ctx.violate(key, f'{what}: atom 0 has a type absent from the original', replay)
-                return False
-        s2 = [s[j] + off[j] for j in range(3)]
+        # (the primitive cell is only re-centred on an atom that already sits at the origin within 1e-8: no offset)
+        s2 = [s[j] for j in range(3)]
         pl = _all_payload(new, k)
         if not any(t == int(new.atoms.atype[k]) and opl == pl and all(circ(s2[j], sp[j]) < 1e-6 for j in range(3))
                    for (t, opl, sp) in recs):
